@@ -153,8 +153,8 @@ func c22ServiceCode(self uint32, others []uint32, nXfer int, observe []uint32) [
 				ro[off+i] = byte(self)<<4 | byte(d)
 			}
 			ro[off] = byte(k) // distinct memo per transfer
-			ro[off+1] = byte(self)
-			ro[off+2] = byte(d)
+			copy(ro[off+1:], c22LE(uint64(self), 4))
+			copy(ro[off+5:], c22LE(uint64(d), 4))
 			// transfer: w7 = dest, w8 = amount, w9 = gas, w10 = memo ptr
 			a.loadImm64(7, uint64(d))
 			a.loadImm64(8, uint64(1+k))
@@ -199,9 +199,11 @@ func c22Account(code []byte) types.ServiceAccount {
 func c22Build(nServices, nXfer int) OuterAccumulationInput {
 	ids := []uint32{}
 	for i := 0; i < nServices; i++ {
-		ids = append(ids, uint32(10+i))
+		// service ids that collide under plausible shortcuts: equal low 16 bits, above the Unicode
+		// range (string(rune(id)) is U+FFFD for all of them), one in the surrogate range
+		ids = append(ids, []uint32{0x0011000A, 0x0012000A, 0x0000D80A, 0x0014000A, 0x0015000A}[i])
 	}
-	sinks := []uint32{20, 21}
+	sinks := []uint32{0x0013000A, 0x0000D90A}
 	accounts := types.ServiceAccountState{}
 	all := append(append([]uint32{}, ids...), sinks...)
 	peers := func(self uint32) []uint32 {
